@@ -51,7 +51,7 @@ Bind(e) ==
                THEN Append(sent, [node |-> e.n, net |-> NetOf(e.n), src |-> IF e.src = NoAddr THEN Addr(e.n) ELSE e.src,
                                   dst |-> e.dst, pl |-> e.pl])
                ELSE sent
-    /\ lost' = IF e.op = "deliver" /\ flight # <<>> /\ DropRule(Head(flight).net, e.draw)
+    /\ lost' = IF e.op = "deliver" /\ flight # <<>> /\ Head(flight).net \in Nets /\ DropRule(Head(flight).net, e.draw)
                THEN lost \cup {<<Head(flight).id, Head(flight).net>>} ELSE lost
     /\ act' = [op |-> e.op, n |-> e.n, net |-> e.net, dst |-> e.dst, src |-> e.src, pl |-> e.pl, res |-> e.res,
                draw |-> e.draw, id |-> e.id]
@@ -81,6 +81,7 @@ Failing ==
     (IF OnlySendsAndForwardsEmit THEN {} ELSE {"OnlySendsAndForwardsEmit"}) \cup
     (IF FlightKeepsPayload THEN {} ELSE {"FlightKeepsPayload"}) \cup
     (IF OldestFirst THEN {} ELSE {"OldestFirst"}) \cup
+    (IF FlightWellFormed THEN {} ELSE {"FlightWellFormed"}) \cup
     (IF WireLogsEveryFrame THEN {} ELSE {"WireLogsEveryFrame"}) \cup
     (IF NoLoop THEN {} ELSE {"NoLoop"}) \cup
     (IF ForwardToContainingNet THEN {} ELSE {"ForwardToContainingNet"}) \cup
